@@ -181,12 +181,14 @@ func c33(c *Ctx) {
 		for _, b := range ns.Blocks {
 			for _, in := range b.Instrs {
 				if mu, ok := in.(*ssa.MapUpdate); ok && FieldLoad(fSubs)(mu.Map) {
-					c.MustFact(mu, "tracked-only-while-live", cop)
-					// the liveness test used is the one after creation
 					var cr ssa.CallInstruction
 					for _, ci := range callsIn(ns, func(cc *ssa.CallCommon) bool { return cc.IsInvoke() && FieldLoad(fCC)(cc.Value) }) {
 						cr = ci
 					}
+					c.MustFact(mu, "tracked-only-while-live", cop)
+					c.Expect(ConstBool(true)(mu.Value), mu, ns, "tracked-as-present", "the new subchannel is recorded as absent (it would not be shut down when the wrapper closes)")
+					c.Expect(mu.Key == ssa.Value(cr.Value()) || DataDep(func(v ssa.Value) bool { return cr != nil && v == cr.Value() })(mu.Key), mu, ns, "tracks-the-created-subchannel", "the tracked subchannel is not the one just created")
+					// the liveness test used is the one after creation
 					ok2 := false
 					for _, fc := range FactsAt(mu) {
 						if fc.Kind == "truth" && fc.Pol && CallRes(Callee(gsp, gb+".balancerCurrentOrPending"), 0)(fc.X) {
